@@ -12,6 +12,7 @@ import tracer_common as tc
 
 S9 = 'S9-stale-er-size-after-packet-switch'
 S18 = 'S18-smaller-buffer-installed-during-packet-switch'
+S9B = 'S9b-discarded-although-it-fits-an-empty-packet'
 
 PARAMS = {
     # pid: quick (ncfg, nh), thorough (ncfg, nh), history kwargs, cfg kwargs
@@ -370,7 +371,7 @@ def oracle_discard_reason(ctx, r, hi, stats):
                'buf_bytes': h['buf'], 'call': call, 'size_in_empty_packet': size_empty, 'size_at_current_position': size_here,
                'capacity': psize - off}
         if size_here > psize - off:
-            ctx.finding(S9, 'record discarded although it fits in an empty packet: its size was computed at the current position (%d bits) instead of the empty-packet position (%d bits <= capacity %d)' % (size_here, size_empty, psize - off), rep)
+            ctx.finding(S9B, 'record discarded although it fits in an empty packet: its size was computed at the current position (%d bits) instead of the empty-packet position (%d bits <= capacity %d)' % (size_here, size_empty, psize - off), rep)
         else:
             ctx.violation('C03: tracing call discarded although the back end never answered full and the record fits in an empty packet', rep)
 
